@@ -142,6 +142,15 @@ def run(ck):
     rng = ck.rng
     thorough = ck.tier == "thorough"
     cases, meta = [], []
+    # corpus first: several PRG banks / ROM banks in one program, pairs written in either order, hexadecimal bank letters
+    for arch in ("6502", "sm83", "z80"):
+        idv = {"6502": "PRG", "sm83": "ROM", "z80": "PRG"}[arch]
+        text = "\n".join(["@org $c000", '@meta "ID" "%s", "BANK" "1"' % idv, "lbl_pa:", "@ds 1", '@meta "ID" "%s", "BANK" "2"' % idv, "lbl_pb:", "lbl_pb2:", "@ds 1",
+                          '@meta "BANK" "A", "ID" "%s"' % idv, "lbl_pc:", '@meta "ID" "RAM"', "lbl_rr:", '@meta "BANK" "2", "ID" "%s"' % idv, "lbl_pd:", "@endmeta", "lbl_zz:"]) + "\n"
+        syms = {"lbl_pa": (0xC000, [("ID", idv), ("BANK", "1")]), "lbl_pb": (0xC001, [("ID", idv), ("BANK", "2")]), "lbl_pb2": (0xC001, [("ID", idv), ("BANK", "2")]),
+                "lbl_pc": (0xC002, [("BANK", "A"), ("ID", idv)]), "lbl_rr": (0xC002, [("ID", "RAM")]), "lbl_pd": (0xC002, [("BANK", "2"), ("ID", idv)]), "lbl_zz": (0xC002, [])}
+        cases.append({"arch": arch, "files": {"/w/main.asm": text}})
+        meta.append((text, syms, []))
     for _ in range(6000 if thorough else 900):
         arch = rng.choice(asmk.ARCHES)
         text, syms, probes = gen(rng, arch)
